@@ -212,6 +212,12 @@ def check_tree_lossless(tokens, tree, parse_violations, counters: Optional[dict]
         if not parse_violations:
             fails.append({"sig": "no_tree_without_prs", "detail": {}})
         c["no_tree"] = c.get("no_tree", 0) + 1
+        for v in parse_violations or []:
+            d = getattr(v, "description", None) or str(v)
+            if "completeness check fail" in d:
+                # the parser itself noticed that tokens were lost / duplicated
+                fails.append({"sig": "completeness_check_failed", "detail": {"prs": d[:300]}})
+                break
         return fails
     want = [_tok_key(t) for t in tokens if t.raw != ""]
     got = [_tok_key(t) for t in tree.raw_segments if t.raw != ""]
